@@ -2,7 +2,7 @@
 (* M + G configuration of ElvCore (C15).
    Programs are enumerated EXHAUSTIVELY from a small statement vocabulary (templates with holes):
        var v = a ;  W1[ W2[ ... A ... ] ] ;  put $v          (nesting depth <= Depth)
-   A  (atoms):    put a | fail x | break | continue | return | put $v | set v = b | brk (a function that breaks)
+   A  (atoms):    put a | fail x | break | continue | return | put $v | set v = b | brk (a function that breaks) | echo b
    W  (wrappers): try/catch | try/finally | try/catch/else/finally | if | for | while-once |
                   lambda call | fn + call | output capture | exception capture | each | and | pipeline into all
    One TLC state per program.
@@ -24,15 +24,15 @@ CONSTANT Depth
 B(s) == [t |-> "str", v |-> s]
 Wa == B(<<97>>)   Wb == B(<<98>>)   Wc == B(<<99>>)   We == B(<<101>>)  Wf == B(<<102>>)  Wx == B(<<120>>)
 W1 == B(<<49>>)   W2 == B(<<50>>)   Wz == B(<<122>>)
-V(n) == [t |-> "var", n |-> n, explode |-> FALSE]
-Cmd(n, args) == [t |-> "cmd", head |-> [t |-> "name", n |-> n], args |-> args, opts |-> <<>>]
+V(n) == [t |-> "var", n |-> n, explode |-> FALSE, q |-> <<>>]
+Cmd(n, args) == [t |-> "cmd", head |-> [t |-> "name", n |-> n, q |-> <<>>], args |-> args, opts |-> <<>>]
 CmdX(h, args) == [t |-> "cmd", head |-> h, args |-> args, opts |-> <<>>]
 P(f) == [t |-> "pipe", fs |-> <<f>>]
 Ch(ps) == [t |-> "chunk", ps |-> ps]
 Put(e) == Cmd("put", <<e>>)
 Lam(params, body) == [t |-> "lam", params |-> params, rest |-> 0, opts |-> <<>>, body |-> body]
 Try(body, cvar, catch, els, fin) == [t |-> "try", body |-> body, cvar |-> cvar, catch |-> catch, els |-> els, fin |-> fin]
-LV(n) == [n |-> n, idx |-> <<>>]
+LV(n) == [n |-> n, idx |-> <<>>, q |-> <<>>]
 
 \* ---- vocabulary: a statement template is a sequence of pipelines
 Atoms == {
@@ -43,7 +43,8 @@ Atoms == {
   <<P(Cmd("return", <<>>))>>,
   <<P(Put(V("v")))>>,
   <<P([t |-> "set", lhs |-> <<LV("v")>>, rest |-> 0, rhs |-> <<Wb>>])>>,
-  <<P(Cmd("brk", <<>>))>> }
+  <<P(Cmd("brk", <<>>))>>,
+  <<P(Cmd("echo", <<Wb>>))>> }
 
 \* wrappers: name -> statements around the inner statements S
 WrapNames == {"try-catch", "try-finally", "try-full", "if", "for", "while", "call-lambda", "fn-call",
@@ -114,5 +115,5 @@ ChunkStops      == LET p == prog  r == Result(p)  s == StmtResult(p) IN
 
 Emit == LET r == Result(prog) IN
         PrintT(ToJson([ast |-> prog.chunk, oom |-> Skip(r.exc),
-                       out |-> [i \in 1..Len(r.out) |-> Show(r.out[i])], exc |-> ShowCause(r.exc)]))
+                       out |-> [i \in 1..Len(r.out) |-> Show(r.out[i])], bytes |-> r.bytes, exc |-> ShowCause(r.exc)]))
 =============================================================================
